@@ -241,7 +241,8 @@ def main():
         files[p] = open(os.path.join(outdir, p + ".ndjson"), "w"); idx[p] = []; lines[p] = 0
     for tid in range(1, n + 1):
         prof = rnd.choice({"subs": ["sub", "both"], "retry": ["pub", "both", "both"], "qos2": ["pub", "both"], "persist": ["pub", "both"], "wrapsess": ["pub", "both"], "inbound": ["sub", "both"]}.get(fam, ["pub", "sub", "both", "both"]))
-        w = W.World(prof, len(idx[prof]) + 1, files[prof])
+        jit = random.Random(rnd.random()) if fam == "jitter" else None
+        w = W.World(prof, len(idx[prof]) + 1, files[prof], jitter=jit, meta={"jitter": 1} if jit else None)
         opts = {"maxgen": 3, "clean": rnd.choice([0.0, 0.5, 1.0]), "wrap": fam == "wrap" or (fam == "mixed" and rnd.random() < 0.25)}
         if fam == "session":      # many losses of every kind, several generations, both session modes
             opts.update(maxgen=5, wt={"lost": 2.2, "disconnect": 0.8, "garbage": 0.5, "publish": 6, "fire": 1.5}, ka=[0, 0, 2])
@@ -260,6 +261,8 @@ def main():
             opts.update(maxgen=5, clean=rnd.choice([0.0, 0.0, 0.5]), wt={"lost": 1.6, "publish": 0.5, "subscribe": 0.5, "unsubscribe": 0.2, "inbound": 9, "ack": 1, "fire": 0.5}, ka=[0])
         elif fam == "react":      # stage 3: the application calls back into the API from Deferred callbacks and handlers
             opts.update(maxgen=4, react=True, wt={"lost": 1.2, "publish": 5, "subscribe": 2.5, "unsubscribe": 1.5, "ack": 8, "inbound": 4, "fire": 1.5, "set": 0.8}, ka=[0, 0, 2, 5])
+        elif fam == "jitter":     # the library's own random retry jitter is left on (A4): only the automata judge these runs
+            opts.update(maxgen=3, maxfires=16, drain=8, wt={"fire": 6, "publish": 5, "subscribe": 2, "unsubscribe": 1.5, "set": 1.5}, ka=[0, 0, 3])
         elif fam == "subs":
             opts.update(maxgen=4, wt={"subscribe": 6, "unsubscribe": 5, "publish": 1, "lost": 1.2, "set": 2}, ka=[0])
         try:
